@@ -199,7 +199,8 @@ def _option_paths(body, opt_vars, f_in, stop_at, functions=None, formals=()):
 
 
 def run(rep: Report, repo: Repo, tier: str) -> None:
-    rep.unit(FILE, "cmake/templates/cminx-config.cmake.in", "pyproject.toml")
+    rep.unit(FILE, "cmake/templates/cminx-config.cmake.in", "pyproject.toml", "src/main.py", "src/cminx/__init__.py",
+             "src/cminx/documenter.py", "src/cminx/aggregator.py", "src/cminx/rstwriter.py", "src/cminx/parser/__init__.py")
     rep.assume("CMake semantics of execute_process(COMMAND ... COMMAND_ERROR_IS_FATAL ANY), list(APPEND), if(IS_DIRECTORY), "
                "unquoted expansion of a list variable into separate arguments",
                "the installed `cminx` executable is the entry point cminx:main (pyproject scripts table)",
@@ -424,6 +425,11 @@ def run(rep: Report, repo: Repo, tier: str) -> None:
         rule_exit_status(rep, repo, "C19-R7")
     with rep.isolated():
         rule_inputs_as_given(rep, repo, "C19-R8")
+    # ---- R9: "if CMinx fails, the CMake call fails": a failure can only reach the exit status that execute_process looks at
+    # if no handler between the parser and main() absorbs it (log-and-continue, collect-and-report-later)
+    with rep.isolated():
+        from .c06 import rule_no_swallowing
+        rule_no_swallowing(rep, repo, "C19-R9")
 
 
 def _result_checked(fn: Block, var: str, ep: Command) -> bool:
